@@ -50,6 +50,8 @@ type inst struct {
 	name     string
 	unit     string
 	scope    int
+	desc     string
+	twinOf   int    // >= 0: same name and kind as that instrument, other scope, different description
 	created  uint64 // stamp at which creation returned
 	nextBit  int
 	ci       metric.Int64Counter
@@ -136,7 +138,7 @@ func (engine) Body(r *simdrv.Run) {
 	perm := r.Cfg(len(names))
 	for i := 0; i < nInst; i++ {
 		nm := names[(perm+i*5)%len(names)]
-		w.insts = append(w.insts, &inst{idx: i, kind: instKinds[r.Cfg(len(instKinds))], name: nm.name, unit: nm.unit, scope: r.Cfg(2)})
+		w.insts = append(w.insts, &inst{idx: i, kind: instKinds[r.Cfg(len(instKinds))], name: nm.name, unit: nm.unit, scope: r.Cfg(2), desc: "d", twinOf: -1})
 	}
 	// make names unique (two instruments with one name and different kinds are a configuration error)
 	// ... and neither are two instruments whose names differ only by a trailing "_total" or by
@@ -158,6 +160,16 @@ func (engine) Body(r *simdrv.Run) {
 			in.name += "_x"
 		}
 		seen[stem(in.name)] = true
+	}
+	// twins: the same instrument name, kind and unit in the *other* scope with a different description.
+	// The exporter must keep one HELP text per family (first seen wins) whatever the scrape order.
+	if r.Cfg(2) == 1 {
+		nTw := 1 + r.Cfg(2)
+		for k := 0; k < nTw && k < nInst; k++ {
+			o := w.insts[k]
+			w.insts = append(w.insts, &inst{idx: len(w.insts), kind: o.kind, name: o.name, unit: o.unit, scope: 1 - o.scope, desc: "other description", twinOf: o.idx})
+		}
+		nInst = len(w.insts)
 	}
 	recPlans := make([][]planOp, nRec)
 	for t := range recPlans {
@@ -202,7 +214,7 @@ func (engine) Body(r *simdrv.Run) {
 	r.Res.Config["options"] = strings.Join(optDesc, ",")
 	var idesc []string
 	for _, in := range w.insts {
-		idesc = append(idesc, fmt.Sprintf("%s:%s[%s]@scope%d", in.kind, in.name, in.unit, in.scope))
+		idesc = append(idesc, fmt.Sprintf("%s:%s[%s]@scope%d(twin of %d)", in.kind, in.name, in.unit, in.scope, in.twinOf))
 	}
 	r.Res.Config["instruments"] = strings.Join(idesc, " ")
 	r.Res.Config["recorders"] = fmt.Sprintf("%+v", recPlans)
@@ -228,15 +240,15 @@ func (engine) Body(r *simdrv.Run) {
 		var e error
 		switch in.kind {
 		case "counter_i":
-			in.ci, e = m.Int64Counter(in.name, metric.WithUnit(in.unit), metric.WithDescription("d"))
+			in.ci, e = m.Int64Counter(in.name, metric.WithUnit(in.unit), metric.WithDescription(in.desc))
 		case "counter_f":
-			in.cf, e = m.Float64Counter(in.name, metric.WithUnit(in.unit), metric.WithDescription("d"))
+			in.cf, e = m.Float64Counter(in.name, metric.WithUnit(in.unit), metric.WithDescription(in.desc))
 		case "updown_i":
-			in.ui, e = m.Int64UpDownCounter(in.name, metric.WithUnit(in.unit), metric.WithDescription("d"))
+			in.ui, e = m.Int64UpDownCounter(in.name, metric.WithUnit(in.unit), metric.WithDescription(in.desc))
 		case "gauge_i":
-			in.gi, e = m.Int64Gauge(in.name, metric.WithUnit(in.unit), metric.WithDescription("d"))
+			in.gi, e = m.Int64Gauge(in.name, metric.WithUnit(in.unit), metric.WithDescription(in.desc))
 		case "hist_i":
-			in.hi, e = m.Int64Histogram(in.name, metric.WithUnit(in.unit), metric.WithDescription("d"), metric.WithExplicitBucketBoundaries(1, 4, 16, 256, 65536))
+			in.hi, e = m.Int64Histogram(in.name, metric.WithUnit(in.unit), metric.WithDescription(in.desc), metric.WithExplicitBucketBoundaries(1, 4, 16, 256, 65536))
 		}
 		if e != nil {
 			r.Res.Outcome = "harness-panic"
